@@ -78,9 +78,20 @@ class UpgradedAnnotation(metaclass=abc.ABCMeta):
             return EmptyAnnotation
         return _PreEvaluatedAnnotation(value)
 
+    def _unevaluated(self):
+        """What to compare when the annotation cannot be evaluated"""
+        return self
+
     def __eq__(self, other):
         if isinstance(other, UpgradedAnnotation):
-            return self.source_value() == other.source_value()
+            if self is other:
+                return True
+            try:
+                return self.source_value() == other.source_value()
+            except Exception:
+                # names that only exist for type checkers: the same
+                # spelling in the same module denotes the same thing
+                return self._unevaluated() == other._unevaluated()
         return False
 
 
@@ -110,6 +121,9 @@ class _PostponedAnnotation(UpgradedAnnotation):
 
     def source_value(self):
         return eval(self._raw_annotation, self._function.__globals__, {})
+
+    def _unevaluated(self):
+        return self._raw_annotation, id(self._function.__globals__)
 
 
 @attr.define(eq=False)
